@@ -113,6 +113,39 @@ fn main() {
             }
         }
     }
+    // the block-size ARGUMENT differs from the configuration's own block_size field (the documented examples
+    // call it that way: a default configuration with another block size)
+    {
+        let mut id = 400_000usize;
+        for (arg_bs, field_bs, ch, bps) in [(1024usize, 4096usize, 2usize, 16usize), (192, 4096, 1, 8), (4608, 4096, 2, 24), (64, 32767, 3, 12), (4096, 64, 2, 16)] {
+            let mut r = Lcg(0xb10c_0000 + id as u64);
+            let hi = (1i64 << (bps - 1)) - 1;
+            let n = 3 * arg_bs + 7;
+            let x: Vec<i32> = (0..n * ch).map(|t| (((t / ch) as f64 * 0.05).sin() * hi as f64 * 0.5) as i32 + (r.next() % 7) as i32 - 3).collect();
+            let mut cfg = config::Encoder::default();
+            cfg.block_size = field_bs;
+            let src = MemSource::from_samples(&x, ch, bps, 44100);
+            let out = match cfg.into_verified() {
+                Ok(v) => match flacenc::encode_with_fixed_block_size(&v, src, arg_bs) {
+                    Ok(s) => {
+                        let mut sink = ByteSink::new();
+                        match s.write(&mut sink) {
+                            Ok(()) => sink.as_slice().to_vec(),
+                            Err(_) => b"write error".to_vec(),
+                        }
+                    }
+                    Err(e) => format!("encode error: {e}").into_bytes(),
+                },
+                Err((_, e)) => format!("config error: {e}").into_bytes(),
+            };
+            println!(
+                "{{\"ev\":\"out\",\"build\":\"{build}\",\"case\":{id},\"digest\":\"{}\",\"len\":{},\"mt\":false,\"bytes\":[]}}",
+                fnv(&out),
+                out.len()
+            );
+            id += 1;
+        }
+    }
     // truncated inputs: the interleaved value count is not a multiple of the channel count (a dangling
     // partial inter-channel sample at the end), default configuration
     {
